@@ -78,18 +78,42 @@ func (r *responseStorer) StoreResponse(
 		return err
 	}
 
-	switch {
-	case refs == nil:
-		refs = make(ResponseRefs, 0, 1)
-	case cap(refs) <= len(refs)+1:
-		refs = slices.Grow(refs, 1)
-	}
-
 	refEntry := &ResponseRef{
 		Vary:         vary,
 		VaryResolved: varyResolved,
 		ReceivedAt:   respEntry.DateHeader(),
 		ResponseID:   responseID,
+	}
+	if updater, ok := r.cache.(RefsUpdater); ok {
+		// The caller looked the index up before it contacted the origin; other
+		// requests may have changed it since. Apply the change to the index
+		// as it is now, finding the reference to replace by its response id.
+		replaceID := ""
+		if refIndex >= 0 && refIndex < len(refs) && refs[refIndex] != nil {
+			replaceID = refs[refIndex].ResponseID
+		}
+		return updater.UpdateRefs(urlKey, func(current ResponseRefs) ResponseRefs {
+			index := -1
+			if replaceID != "" {
+				index = slices.IndexFunc(current, func(ref *ResponseRef) bool {
+					return ref != nil && ref.ResponseID == replaceID
+				})
+			}
+			return upsertRef(current, refEntry, index)
+		})
+	}
+	return r.cache.SetRefs(urlKey, upsertRef(refs, refEntry, refIndex))
+}
+
+// upsertRef puts refEntry into refs: at refIndex if that is a valid position,
+// else in place of the reference that already has its response id, else at the end.
+func upsertRef(refs ResponseRefs, refEntry *ResponseRef, refIndex int) ResponseRefs {
+	responseID := refEntry.ResponseID
+	switch {
+	case refs == nil:
+		refs = make(ResponseRefs, 0, 1)
+	case cap(refs) <= len(refs)+1:
+		refs = slices.Grow(refs, 1)
 	}
 
 	if refIndex < 0 {
@@ -114,5 +138,5 @@ func (r *responseStorer) StoreResponse(
 		}
 	}
 
-	return r.cache.SetRefs(urlKey, refs)
+	return refs
 }
